@@ -10,6 +10,7 @@ import KB.Driver.Election
 import KB.Driver.Roles
 import KB.Driver.Etcd
 import KB.Driver.Watch
+import KB.Driver.Native
 open KB KB.Driver
 
 partial def loop {σ : Type} (h : IO.FS.Stream) (step : σ → List String → σ × String) (st : σ) : IO Unit := do
@@ -37,4 +38,5 @@ def main (args : List String) : IO Unit := do
   | "roles" => loop stdin Roles.step Roles.init
   | "etcd" => loop stdin Etcd.step Etcd.init
   | "watch" => loop stdin Watch.step Watch.init
+  | "native" => loop stdin Native.step Native.init
   | _ => loop stdin (stepSuite suiteName) (initSuite suiteName [])
